@@ -19,7 +19,8 @@ from ..runner import ROOT
 ID = "C14"
 RULE = (
     "case = a history of up to 14 operations with inline inputs (read V3000/V2000 text, "
-    "canonicalize, pipeline, parse valid and INVALID strings, normalise a string, write a molfile, "
+    "canonicalize, pipeline, parse valid and INVALID strings, read DAMAGED molfiles (cut short, "
+    "dangling continuation dash, wrong counts, missing M  END), normalise a string, write a molfile, "
     "permute_molecule(seed), consume the global random generator, 'run the next k operations in k "
     "threads at once' under a 1 microsecond switch interval); execution: three persistent server "
     "interpreters per shard with distinct PYTHONHASHSEED (0 plus two derived from VERIF_SEED and "
@@ -28,7 +29,7 @@ RULE = (
     "result whatever the hash seed, position, preceding (failed) parses, or thread: strings "
     "byte-equal, graphs equal in node order/attributes/edge set, molfiles equal with the 10 "
     "timestamp digits masked, exceptions equal by type. Non-trivial = an input compared under >=2 "
-    "hash seeds and >=2 history positions with a failed parse before it in at least one; distinct "
+    "hash seeds and >=2 history positions with a rejected input (string or molfile) before it in at least one; distinct "
     "by case digest."
 )
 MANIFEST = {
@@ -55,8 +56,41 @@ def molfile_text(draw):
 
 
 @st.composite
+def damaged_molfile(draw):
+    """A molfile the readers must reject or at least handle identically every time: cut
+    short, a continuation dash before a non-continuation line, wrong counts, lost M  END."""
+    text = draw(molfile_text())
+    lines = text.replace("\r\n", "\n").replace("\r", "\n").split("\n")
+    how = draw(st.sampled_from(["truncate", "dangling_dash", "counts", "no_end", "drop_line", "dup_line"]))
+    k = draw(st.integers(0, max(0, len(lines) - 1)))
+    if how == "truncate":
+        lines = lines[: max(4, k)]
+    elif how == "dangling_dash":
+        j = min(len(lines) - 1, max(4, k))
+        lines[j] = lines[j] + " -"
+        lines.insert(j + 1, "junk line that does not continue")
+    elif how == "counts":
+        for j, ln in enumerate(lines):
+            if "COUNTS" in ln:
+                lines[j] = ln.replace("COUNTS ", "COUNTS 9")
+            elif ln.endswith("V2000"):
+                lines[j] = " 99" + ln[3:]
+    elif how == "no_end":
+        lines = [ln for ln in lines if ln != "M  END"]
+    elif how == "drop_line":
+        if len(lines) > 5:
+            del lines[max(4, k) % len(lines)]
+    else:
+        j = max(4, k) % len(lines)
+        lines.insert(j, lines[j])
+    return "\n".join(lines)
+
+
+@st.composite
 def op(draw):
-    kind = draw(st.sampled_from(["read", "pipeline", "canon", "parse", "parse_bad", "norm", "write", "permute", "random", "threads", "parse_bad", "pipeline"]))
+    kind = draw(st.sampled_from(["read", "pipeline", "canon", "parse", "parse_bad", "norm", "write", "permute", "random", "threads", "parse_bad", "pipeline", "read_bad", "read_bad"]))
+    if kind == "read_bad":
+        return ["read", draw(damaged_molfile())]
     if kind in ("read", "pipeline", "canon", "write"):
         return [kind, draw(molfile_text())]
     if kind == "permute":
@@ -164,8 +198,9 @@ def check(case, stats):
                 seen[key][1].append(ctx)
             else:
                 seen[key] = (val, [ctx])
-            if o[0] == "parse" and isinstance(r["value"], dict) and "exception" in r["value"]:
+            if o[0] in ("parse", "read") and isinstance(r["value"], dict) and "exception" in r["value"]:
                 failed_before = True
+                stats.label("rejected_" + o[0])
     nt = False
     for key, (val, ctxs) in seen.items():
         if len({c["hashseed"] for c in ctxs}) >= 2 and len({(c["history"], c["position"]) for c in ctxs}) >= 2 and any(c["failed_parse_before"] for c in ctxs):
